@@ -124,6 +124,8 @@ pub struct MutableArchive {
     updated_hash_table_pos: Option<u64>,
     /// Updated block table position for V3+ archives
     updated_block_table_pos: Option<u64>,
+    /// MD5 of the hash and block table bytes as last written (V4 header)
+    updated_table_md5: Option<([u8; 16], [u8; 16])>,
 }
 
 impl MutableArchive {
@@ -165,6 +167,7 @@ impl MutableArchive {
             updated_bet_pos: None,
             updated_hash_table_pos: None,
             updated_block_table_pos: None,
+            updated_table_md5: None,
         })
     }
 
@@ -1326,9 +1329,12 @@ impl MutableArchive {
 
         // For V3+ archives, we need to rebuild the entire table structure
         // to maintain the correct order: HET, BET, Hash, Block
-        if header.format_version >= FormatVersion::V3 {
-            return self.write_tables_v3_plus();
-        }
+        // V3/V4: the HET/BET tables of the archive describe the state before this session and
+        // cannot be patched in place. The classic hash/block tables carry the same information
+        // and every reader falls back to them when the header names no HET/BET table: write the
+        // classic tables (below) and let update_header() drop the stale HET/BET positions.
+        let drop_het_bet = header.format_version >= FormatVersion::V3;
+        let mut table_md5 = ([0u8; 16], [0u8; 16]);
 
         // For V1/V2 archives: the block table may have grown, so the tables cannot be
         // rewritten at their old position (files appended in this session start right
@@ -1371,9 +1377,9 @@ impl MutableArchive {
             encrypt_block(&mut u32_buffer, key);
 
             // Write back
-            for &value in &u32_buffer {
-                self.file.write_all(&value.to_le_bytes())?;
-            }
+            let bytes: Vec<u8> = u32_buffer.iter().flat_map(|v| v.to_le_bytes()).collect();
+            self.file.write_all(&bytes)?;
+            table_md5.0 = Self::md5_of(&bytes);
         }
 
         // Write block table
@@ -1399,9 +1405,9 @@ impl MutableArchive {
             encrypt_block(&mut u32_buffer, key);
 
             // Write back
-            for &value in &u32_buffer {
-                self.file.write_all(&value.to_le_bytes())?;
-            }
+            let bytes: Vec<u8> = u32_buffer.iter().flat_map(|v| v.to_le_bytes()).collect();
+            self.file.write_all(&bytes)?;
+            table_md5.1 = Self::md5_of(&bytes);
         }
 
         // Remember where the tables are now; later additions go behind them
@@ -1409,11 +1415,24 @@ impl MutableArchive {
         self.updated_hash_table_pos = Some(tables_start - archive_offset);
         self.updated_block_table_pos = Some(tables_start - archive_offset + hash_table_bytes);
         self.next_file_offset = Some((tables_end + 511) & !511);
+        self.updated_table_md5 = Some(table_md5);
+        if drop_het_bet {
+            self.updated_het_pos = Some(0);
+            self.updated_bet_pos = Some(0);
+        }
 
         Ok(())
     }
 
+    fn md5_of(bytes: &[u8]) -> [u8; 16] {
+        use md5::{Digest, Md5};
+        let mut hasher = Md5::new();
+        hasher.update(bytes);
+        hasher.finalize().into()
+    }
+
     /// Write tables for V3+ archives with correct ordering
+    #[allow(dead_code)]
     fn write_tables_v3_plus(&mut self) -> Result<()> {
         let hash_table = self
             .hash_table
@@ -1758,28 +1777,28 @@ impl MutableArchive {
             }
         }
 
-        // Relocated tables (V1/V2) always require a header update
-        if header.format_version < FormatVersion::V3
-            && let (Some(_), Some(block_pos)) =
-                (self.updated_hash_table_pos, self.updated_block_table_pos)
+        // Relocated tables always require a header update
+        if let (Some(_), Some(block_pos)) =
+            (self.updated_hash_table_pos, self.updated_block_table_pos)
         {
-            header.archive_size = (block_pos + header.block_table_size as u64 * 16) as u32;
+            let archive_size = block_pos + header.block_table_size as u64 * 16;
+            header.archive_size = archive_size as u32;
+            if header.archive_size_64.is_some() {
+                header.archive_size_64 = Some(archive_size);
+            }
             needs_update = true;
         }
 
         if needs_update {
-            // Seek to header position
-            self.file.seek(SeekFrom::Start(archive_offset))?;
+            // Assemble the header in memory (the V4 header ends with an MD5 of itself)
+            let mut buf: Vec<u8> = Vec::with_capacity(header.header_size as usize);
+            buf.extend_from_slice(b"MPQ\x1A"); // Signature
+            buf.extend_from_slice(&header.header_size.to_le_bytes());
+            buf.extend_from_slice(&header.archive_size.to_le_bytes());
+            buf.extend_from_slice(&(header.format_version as u16).to_le_bytes());
+            buf.extend_from_slice(&header.block_size.to_le_bytes());
 
-            // Write the header
-            self.file.write_all(b"MPQ\x1A")?; // Signature
-            self.file.write_all(&header.header_size.to_le_bytes())?;
-            self.file.write_all(&header.archive_size.to_le_bytes())?;
-            self.file
-                .write_all(&(header.format_version as u16).to_le_bytes())?;
-            self.file.write_all(&header.block_size.to_le_bytes())?;
-
-            // Use updated positions if available (for V3+), otherwise use original
+            // Use updated positions if available, otherwise use original
             let hash_pos = self
                 .updated_hash_table_pos
                 .unwrap_or(header.hash_table_pos as u64) as u32;
@@ -1787,34 +1806,53 @@ impl MutableArchive {
                 .updated_block_table_pos
                 .unwrap_or(header.block_table_pos as u64) as u32;
 
-            self.file.write_all(&hash_pos.to_le_bytes())?;
-            self.file.write_all(&block_pos.to_le_bytes())?;
-            self.file.write_all(&header.hash_table_size.to_le_bytes())?;
-            self.file
-                .write_all(&header.block_table_size.to_le_bytes())?;
+            buf.extend_from_slice(&hash_pos.to_le_bytes());
+            buf.extend_from_slice(&block_pos.to_le_bytes());
+            buf.extend_from_slice(&header.hash_table_size.to_le_bytes());
+            buf.extend_from_slice(&header.block_table_size.to_le_bytes());
 
-            // Write extended fields for v2+
+            // Extended fields for v2+
             if header.format_version >= FormatVersion::V2 {
-                self.file
-                    .write_all(&header.hi_block_table_pos.unwrap_or(0).to_le_bytes())?;
-                self.file
-                    .write_all(&header.hash_table_pos_hi.unwrap_or(0).to_le_bytes())?;
-                self.file
-                    .write_all(&header.block_table_pos_hi.unwrap_or(0).to_le_bytes())?;
+                buf.extend_from_slice(&header.hi_block_table_pos.unwrap_or(0).to_le_bytes());
+                buf.extend_from_slice(&header.hash_table_pos_hi.unwrap_or(0).to_le_bytes());
+                buf.extend_from_slice(&header.block_table_pos_hi.unwrap_or(0).to_le_bytes());
             }
 
-            // Write v3+ fields
+            // v3+ fields, in the order the header reader and the builder use: BET, then HET
+            let het_pos = self.updated_het_pos.or(header.het_table_pos).unwrap_or(0);
+            let bet_pos = self.updated_bet_pos.or(header.bet_table_pos).unwrap_or(0);
             if header.format_version >= FormatVersion::V3 {
-                self.file
-                    .write_all(&header.archive_size_64.unwrap_or(0).to_le_bytes())?;
-
-                // Use updated positions if available, otherwise use original
-                let het_pos = self.updated_het_pos.or(header.het_table_pos).unwrap_or(0);
-                let bet_pos = self.updated_bet_pos.or(header.bet_table_pos).unwrap_or(0);
-
-                self.file.write_all(&het_pos.to_le_bytes())?;
-                self.file.write_all(&bet_pos.to_le_bytes())?;
+                buf.extend_from_slice(&header.archive_size_64.unwrap_or(0).to_le_bytes());
+                buf.extend_from_slice(&bet_pos.to_le_bytes());
+                buf.extend_from_slice(&het_pos.to_le_bytes());
             }
+
+            // v4 fields: table sizes and MD5s must describe the tables just written
+            if header.format_version >= FormatVersion::V4
+                && let Some(v4) = &header.v4_data
+            {
+                let (hash_md5, block_md5) = self
+                    .updated_table_md5
+                    .unwrap_or((v4.md5_hash_table, v4.md5_block_table));
+                let het_kept = het_pos != 0;
+                let bet_kept = bet_pos != 0;
+                buf.extend_from_slice(&(header.hash_table_size as u64 * 16).to_le_bytes());
+                buf.extend_from_slice(&(header.block_table_size as u64 * 16).to_le_bytes());
+                buf.extend_from_slice(&v4.hi_block_table_size_64.to_le_bytes());
+                buf.extend_from_slice(&(if het_kept { v4.het_table_size_64 } else { 0 }).to_le_bytes());
+                buf.extend_from_slice(&(if bet_kept { v4.bet_table_size_64 } else { 0 }).to_le_bytes());
+                buf.extend_from_slice(&v4.raw_chunk_size.to_le_bytes());
+                buf.extend_from_slice(&block_md5);
+                buf.extend_from_slice(&hash_md5);
+                buf.extend_from_slice(&v4.md5_hi_block_table);
+                buf.extend_from_slice(&(if bet_kept { v4.md5_bet_table } else { [0u8; 16] }));
+                buf.extend_from_slice(&(if het_kept { v4.md5_het_table } else { [0u8; 16] }));
+                let header_md5 = Self::md5_of(&buf);
+                buf.extend_from_slice(&header_md5);
+            }
+
+            self.file.seek(SeekFrom::Start(archive_offset))?;
+            self.file.write_all(&buf)?;
         }
 
         Ok(())
